@@ -500,6 +500,14 @@ def opKeys : Op → List Key
   | .lookup _ (some ks) => ks
   | _ => []
 
+/-- operations that only read (no object is created): map:get/contains/size/keys, array:get/head/size
+and the `?` lookup; with the variables they read -/
+def readVars : Op → Option (List Nat)
+  | .mGet m _ | .mContains m _ | .mSize m | .mKeys m => some [m]
+  | .aGet a _ | .aHead a | .aSize a => some [a]
+  | .lookup v _ => some [v]
+  | _ => none
+
 /-- `deep-equal` steps are outside the refinement theorem (their atom comparison has its own
 agreement theorem and clash predicate) -/
 def opIsDeq : Op → Bool
